@@ -20,7 +20,7 @@ BIN = os.path.join(WORK, "bin")
 DRIVER = os.path.join(LEAN, ".lake/build/bin/dhcp-driver")
 GO = "go1.26.8"
 GOENV = dict(os.environ, GOFLAGS="-mod=mod", GOPROXY="off", GOSUMDB="off", GOTOOLCHAIN="local",
-             CGO_ENABLED="0")
+             CGO_ENABLED="0", VERIF_ROOT=VERIF)
 ALLOWED_AXIOMS = {"propext", "Classical.choice", "Quot.sound"}
 FORBIDDEN = re.compile(r"\bsorry\b|\badmit\b|^axiom |native_decide|bv_decide|implemented_by|\bunsafe |maxHeartbeats 0")
 
